@@ -4,7 +4,7 @@ let show_vehicle v = match v with
   | Mod id -> Printf.sprintf "M %d" (int_of_n id)
   | Unknown -> "U"
 
-let handle (toks : string list) : string =
+let handle (toks : Stdlib.String.t list) : Stdlib.String.t =
   match toks with
   | ["vread"; h] -> show_res show_vehicle (vehicle_read (bytes_of_hex h))
   | ["vspec"; h] -> show_res show_vehicle (spec_read (bytes_of_hex h))
